@@ -261,14 +261,66 @@ func (l *verifLockedBuf) count(sub string) int {
 
 // verifMessages derives the handed-over messages from the seed: every message starts with its
 // index (so all are distinct), contains no newline, and is one of: plain JSON-like text, text with
-// printf verbs and stray '%', multi-kilobyte text, arbitrary binary octets.
+// printf verbs and stray '%', multi-kilobyte text, arbitrary binary octets, or text of an exact
+// boundary length (see below).
 func verifMessages(seed int64, n int, maxLen int, big map[int]int) [][]byte {
 	r := rand.New(rand.NewSource(seed))
 	verbs := []string{"%d", "%s", "%v", "%%", "%!x", "%5.2f", "%", "%+v", "%[2]d", "%*d", "100%", "%n", "%q"}
 	msgs := make([][]byte, n)
+	// Exact-length probes (total message length in octets, without the newline), aimed at buffer
+	// boundaries of a producer: powers of two and their neighbours, and "a message longer than
+	// anything before it, directly followed by one that is 2^j (-1, +0, +1) octets longer still".
+	hardCap := 70000
+	if maxLen < 42000 { // datagram sink: message + newline must fit a udp datagram
+		hardCap = 60000
+	}
+	pow := func(lo, hi int) int { return 1<<uint(lo+r.Intn(hi-lo+1)) + r.Intn(3) - 1 }
+	exact := make([]int, n+1)
+	if n > 0 && r.Intn(3) == 0 {
+		exact[0] = pow(8, 16)
+	}
+	pairAt := -1
+	if n >= 4 && r.Intn(2) == 0 {
+		pairAt = r.Intn(n - 1)
+	}
+	maxSoFar := 0
 	for k := 0; k < n; k++ {
 		var b bytes.Buffer
 		fmt.Fprintf(&b, `{"i":%d,"AgentID":"10.0.%d.%d","d":"`, k, r.Intn(256), r.Intn(256))
+		if k == pairAt && big[k] == 0 && big[k+1] == 0 && maxSoFar < 40000 {
+			m := maxSoFar + 500 + r.Intn(12000)
+			exact[k], exact[k+1] = m, m+pow(8, 13)
+		}
+		if exact[k] == 0 && big[k] == 0 && r.Intn(8) == 0 {
+			switch r.Intn(3) {
+			case 0:
+				exact[k] = pow(8, 16)
+			case 1:
+				exact[k] = maxSoFar + pow(8, 13)
+			default:
+				exact[k] = maxSoFar + r.Intn(3) - 1
+			}
+		}
+		if exact[k] > hardCap || exact[k] < b.Len()+2 || big[k] > 0 {
+			exact[k] = 0
+		}
+		if exact[k] > 0 {
+			// printable filler with printf verbs, cut to the exact length
+			for b.Len() < exact[k]-2 {
+				if r.Intn(40) == 0 {
+					b.WriteString(verbs[r.Intn(len(verbs))])
+				} else {
+					b.WriteByte(byte(35 + r.Intn(90)))
+				}
+			}
+			b.Truncate(exact[k] - 2)
+			b.WriteString(`"}`)
+			msgs[k] = b.Bytes()
+			if len(msgs[k]) > maxSoFar {
+				maxSoFar = len(msgs[k])
+			}
+			continue
+		}
 		kind := r.Intn(5)
 		if big[k] > 0 {
 			kind = 5
@@ -314,6 +366,9 @@ func verifMessages(seed int64, n int, maxLen int, big map[int]int) [][]byte {
 		}
 		b.WriteString(`"}`)
 		msgs[k] = b.Bytes()
+		if big[k] == 0 && len(msgs[k]) > maxSoFar {
+			maxSoFar = len(msgs[k])
+		}
 	}
 	return msgs
 }
